@@ -187,6 +187,8 @@ def sql_level(rep, scratch, rng, tier, dss, counts):
     for n in (2, 16):
         scen.append(("concurrent-first-use-%d" % n, ["SQLOPEN d1 fb lrucache=true&lrucachesize=1000 4", "SQLCONC c1 d1 %d %s" % (n, q), "SQLCLOSE d1", "SQLPROBE p1 fb",
                                                      "SQLOPEN d2 fb - 2", "SQLCONC c2 d2 %d %s" % (n, q), "SQLQ s9 d2 direct %s 1" % q, "ARGS 0", "SQLCLOSE d2", "SQLPROBE p2 fb"]))
+    for n, iters in ((8, 150), (16, 60)):
+        scen.append(("open-query-close-churn-%d" % n, ["SQLCHURN ch fa preload=true %d %d %s" % (n, iters if tier == "quick" else iters * 5, q), "SQLPROBE p1 fa"]))
     for name, body in scen:
         lines = []
         for ds in dss:
@@ -204,6 +206,12 @@ def sql_level(rep, scratch, rng, tier, dss, counts):
                 want = "ROWS 1 5 99 111 117 110 116 TYPES BIGINT:int64 N 1 | I %d" % counts[file]
                 if f[2] != want:
                     why = "%s answered %s (expected %s)" % (f[1], f[2][:80], want[-12:])
+                    break
+            if f[0] == "CHURN":
+                want = "ROWS 1 5 99 111 117 110 116 TYPES BIGINT:int64 N 1 | I %d" % counts["fa"]
+                g = l.split(" ", 3)
+                if g[3] != want:
+                    why = "%s iterations of sql.Open/Query/Close under concurrency answered %s" % (g[2], g[3][:80])
                     break
             if f[0] == "SQLCLOSE" and f[2] != "OK":
                 why = "Close of %s: %s" % (f[1], f[2])
